@@ -506,6 +506,13 @@ fn judge_build(sc: &Scenario, build: Build, st: &mut Option<&mut Stats>) -> Opti
                             }
                         ));
                         st.probe_if(s.fill > 0, "heal group with non-zero final fill");
+                        st.probe_if(
+                            heal.iter().any(|(_, h)| {
+                                let hs = h.sent.as_ref().unwrap();
+                                hs.chan != s.chan || hs.addr != s.addr
+                            }),
+                            "heal group whose fragments differ in channel, talker or sentence type",
+                        );
                         st.probe_if(matches!(ref_out, Outcome::ErrNmea(_)), "heal group whose payload does not decode");
                         st.probe_if(matches!(&ref_out, Outcome::Complete(r, _) if r.message.is_some()), "heal group decoded and compared with unfragmented reference");
                         st.histories.insert({
